@@ -17,10 +17,10 @@ let kind_of = function
   | _ -> raise Not_found
 
 (* the families whose key type counts the element objects a call touches: after an erase(key) / erase(pos) /
-   erase(first, last) that removed nothing every leg prints "touched <n>" (model: ModelMove.erase_touched on the
+   erase(first, last) / erase_if that removed nothing every leg prints "touched <n>" (model: ModelMove.erase_touched on the
    contents before the call; spec: SpecMove.s_erase_nothing_touched) *)
 let counted = function "sst" | "fst" | "fbt" -> true | _ -> false
-let is_vector_erase (o : z op) = match o with EraseKey _ | ErasePos _ | EraseRange (_, _) -> true | _ -> false
+let is_erase_call (o : z op) = match o with EraseKey _ | ErasePos _ | EraseRange (_, _) | EraseIf _ -> true | _ -> false
 
 (* step parser: (code, op) list *)
 let parse_one t =
@@ -91,14 +91,14 @@ let unres = function
   | OutOfFuel -> raise (Bad "fuel")
 
 let touched_model fam lt kind (prev : z list) (o : z op) (r : z out) (l : z list) =
-  if counted fam && is_vector_erase o && r <> OContract && List.length l = List.length prev then
+  if counted fam && is_erase_call o && r <> OContract && List.length l = List.length prev then
     (match unres (erase_touched lt kind prev o) with
      | Some m -> join [ "touched"; ns m ]
      | None -> "touched none")
   else ""
 
 let touched_spec fam (prev : z list) (o : z op) (l : z list) =
-  if counted fam && is_vector_erase o && List.length l = List.length prev then
+  if counted fam && is_erase_call o && List.length l = List.length prev then
     join [ "touched"; ns s_erase_nothing_touched ]
   else ""
 
